@@ -12,7 +12,7 @@ EXPLANATION = (
     'the water-filling clauses of the property (0<=alloc<=ready; free<=0 => nothing; sum<=free+N/2; demand>=free => '
     'sum>=free-N/2; demand<=free => everyone fully served; nobody with a positive allocation ends more than 1 above a '
     'user left short). The two float idioms int(a/n+0.5) and int(i+0.5) are rewritten to integer arithmetic on the '
-    'function\'s AST in memory; each rewrite is justified in the same run by a Float64 lemma decided by z3 (bit-precise '
+    'function\'s AST in memory (int() truncation toward zero modelled for negative operands too); each rewrite is justified in the same run by a Float64 lemma decided by z3 (bit-precise '
     'IEEE semantics) on exactly the operand ranges the rewritten code admits. Only "Confirmed over all paths" counts. '
     'Bounded: N users (quick 1..2, thorough 1..3), all values in [0, 2^bits) (quick 2^20, thorough 2^31), free in '
     '(-2^bits, 2^bits); more users are outside the claim.'
@@ -51,6 +51,10 @@ def run(R):
              'user names are the fixed distinct strings u0..u(N-1); records arrive in that order; one CrossHair condition per '
              'ordering of the running cores (and, for N=3, of the totals), ties broken by user index, so the conditions partition the inputs',
              'CrossHair 0.0.110 path exploration is exhaustive when it reports "Confirmed over all paths"',
+             'lemmas are needed to DISCHARGE; for REFUTING any model may propose candidates: a counterexample that does not '
+             'replay, or a cut helper leaving its lemma range (CutRangeError), triggers a second CrossHair run with the helpers '
+             'in search mode (exact real-valued reading, no side conditions); only counterexamples that reproduce on the real '
+             'uncut method are reported, otherwise the obligation stays not_discharged',
              'Python int/int true division is the correctly rounded quotient (= fp.div RNE of the exact conversions for '
              'operands < 2^53); int(float) truncates (fp.to_sbv RTZ)')
     R.extra['trusted_base'] = ['CrossHair/z3', 'z3 Float64 theory (lemmas)', 'harness/C11_fair.py oracle',
@@ -81,6 +85,14 @@ def run(R):
     targets = [f'{gm}.check{n}_{s}' for n, s, _ in names] + [f'{gm}.reach{n}_{s}' for n, s, _ in names]
     res = chrun.run(targets, per_condition_timeout=pct, workers=8)
     floatcut.require_verdicts(res)
+    refuted = {f'check{n}_{s}': (res[f'{gm}.check{n}_{s}'][1], C11_template.argnames(n))
+               for n, s, _ in names if res[f'{gm}.check{n}_{s}'][0] == 'refuted'}
+
+    def rep(fn, a):
+        n = int(fn[5:].split('_')[0])
+        return _concrete_violation(H, [a[f'r{i}'] for i in range(n)], [a[f'q{i}'] for i in range(n)], a['free'])
+
+    decided = floatcut.two_phase(gm, refuted, rep, pct, prefix='S_') if refuted else {}
     for n, s, (perm, tperm) in names:
         rv, rmsg, rdt = res[f'{gm}.reach{n}_{s}']
         reach = rv == 'refuted' and 'Error' not in rmsg
@@ -92,18 +104,20 @@ def run(R):
             R.ob(name, 'discharged' if good else 'not_discharged', dt,
                  {'twin': rmsg, 'lemmas_ok': lemmas_ok, 'cuts': rules}, nontrivial=reach)
         elif v == 'refuted':
-            args = chrun.parse_counterexample(msg, C11_template.argnames(n))
-            if args is None:
-                raise HarnessError(f'cannot parse CrossHair counterexample: {msg}')
-            rs = [args[f'r{i}'] for i in range(n)]
-            qs = [args[f'q{i}'] for i in range(n)]
-            free = args['free']
-            why = _concrete_violation(H, rs, qs, free)
-            if why is None:
-                raise HarnessError(f'CrossHair counterexample does not reproduce on the real method: {msg}')
-            st = R.finding(CLS, f'_compute_fair_share running={rs} ready={qs} free={free}: {why}',
-                           {'running': rs, 'ready': qs, 'free': free})
-            R.ob(name, st, dt, {'cex': args, 'why': why}, nontrivial=True)
+            d = decided[f'check{n}_{s}']
+            dt += d['secs']
+            if d['result'] is None:
+                R.ob(name, 'not_discharged', dt, {'crosshair': msg[-300:], 'phase1': d['how'], 'search_twin': d['twin'],
+                     'note': 'no counterexample reproduced on the real method (lemma-range exit or over-approximation); '
+                             'the search-mode run found none that does'})
+            else:
+                args = d['args']
+                rs = [args[f'r{i}'] for i in range(n)]
+                qs = [args[f'q{i}'] for i in range(n)]
+                free = args['free']
+                st = R.finding(CLS, f'_compute_fair_share running={rs} ready={qs} free={free}: {d["result"]}',
+                               {'running': rs, 'ready': qs, 'free': free})
+                R.ob(name, st, dt, {'cex': args, 'why': d['result'], 'found_by': d['how']}, nontrivial=True)
         else:
             R.ob(name, 'not_discharged', dt, {'crosshair': msg[-300:]})
         R.sample({'N': n, 'order': order, 'verdict': v, 'secs': round(dt, 1), 'twin': rv})
